@@ -307,6 +307,8 @@ func runC09(w *World, r *Report) {
 					cons := fmt.Sprintf("%s | %s#%d arg%d", host, s.name, n[s.name], i)
 					if mc, bad := mayDeriveFromCall(a, mapSymW); bad {
 						r.Fail("C09-R2", cons, ci.Pos(), fmt.Sprintf("bookkeeping lookup is given a name derived from the mapping call at %s: the source-keyed table is probed under the downstream name", w.pos(mc.Pos())))
+					} else if st := readAfterMappedStore(w, fn, a, mapSymW); st != nil {
+						r.Fail("C09-R2", cons, ci.Pos(), fmt.Sprintf("bookkeeping lookup reads the name from the message after the message was overwritten with the mapped name at %s: the source-keyed table is probed under the downstream name", w.pos(st.Pos())))
 					} else {
 						r.OK("C09-R2", cons, ci.Pos(), "not derived from a mapping result")
 					}
@@ -465,6 +467,68 @@ func runC09(w *World, r *Report) {
 						}
 					}
 				}
+			}
+		}
+		// a memo of resolved names must be emptied completely by whoever changes the mapping table
+		if bad == "" {
+			memo := map[string]bool{}
+			for _, f := range fns {
+				for _, ku := range mapKeyUses(f) {
+					if c, isC := ku.At.(*ssa.Call); isC {
+						if rv := callRecv(c.Common()); rv != nil {
+							ap := w.accessPath(rv)
+							if !strings.HasSuffix(ap, ".nameMappings") {
+								memo[ap[strings.LastIndex(ap, ".")+1:]] = true
+							}
+						}
+					}
+				}
+			}
+			for m := range memo {
+				cleared := false
+				for _, g := range w.RepoFuncs() {
+					if g.Pkg.Pkg.Path() != spec.pkg {
+						continue
+					}
+					writesTable := false
+					eachInstr(g, func(in ssa.Instruction) {
+						if c, isC := in.(*ssa.Call); isC && callSym(c.Common()).name == "Store" {
+							if rv := callRecv(c.Common()); rv != nil && strings.HasSuffix(w.accessPath(rv), ".nameMappings") {
+								writesTable = true
+							}
+						}
+					})
+					if !writesTable {
+						continue
+					}
+					// every entry removed: a Delete of the memo inside a Range over the memo itself
+					okClear := false
+					for _, lit := range familyOf(g).Funcs {
+						eachInstr(lit, func(in ssa.Instruction) {
+							if c, isC := in.(*ssa.Call); isC && callSym(c.Common()).name == "Delete" && lit.Parent() != nil {
+								if rv := callRecv(c.Common()); rv != nil && strings.HasSuffix(w.accessPath(rv), "."+m) {
+									if site, isCall := syncCallbackSite(lit).(*ssa.Call); isCall && callSym(site.Common()).name == "Range" {
+										if rr := callRecv(site.Common()); rr != nil && strings.HasSuffix(w.accessPath(rr), "."+m) {
+											okClear = true
+										}
+									}
+								}
+							}
+						})
+					}
+					if okClear {
+						cleared = true
+					} else {
+						bad, badPos = fmt.Sprintf("%s updates the mapping table but does not empty the memo %s completely", shortFn2(g), m), g.Pos()
+					}
+				}
+				if !cleared && bad == "" {
+					bad, badPos = "the memo "+m+" is never emptied when the mapping table changes", fn.Pos()
+				}
+			}
+			if bad != "" {
+				r.Fail("C09-R9", cons, badPos, "the mapping result is remembered in a table that outlives a change of the mapping table: "+bad+"; a whole-database entry registered later does not reach names that were resolved before, which keep going to the old target")
+				continue
 			}
 		}
 		if bad == "" {
@@ -764,4 +828,49 @@ func msgTypeNames(w *World) map[string]string {
 		}
 	}
 	return out
+}
+
+// readAfterMappedStore: the value is read from a name field of a message (getter GetDbName/GetCollectionName or a
+// direct field load) at a point dominated by a store of a mapping result into that very field.
+func readAfterMappedStore(w *World, fn *ssa.Function, v ssa.Value, mapSym sym) *ssa.Store {
+	var found *ssa.Store
+	for _, x := range backSlice(v, SliceOpts{MaxDepth: 5, NoAggregates: true}) {
+		var base ssa.Value
+		field := ""
+		var at ssa.Instruction
+		switch y := x.(type) {
+		case *ssa.Call:
+			n := callSym(y.Common()).name
+			if (n == "GetDbName" || n == "GetCollectionName") && len(callArgs(y.Common())) == 0 {
+				base, field, at = callRecv(y.Common()), strings.TrimPrefix(n, "Get"), y
+				if y.Call.IsInvoke() {
+					base = y.Call.Value
+				}
+			}
+		case *ssa.UnOp:
+			if fa, ok := y.X.(*ssa.FieldAddr); ok && y.Op == token.MUL {
+				if fnm := fieldName(fa.X.Type(), fa.Field); fnm == "DbName" || fnm == "CollectionName" {
+					base, field, at = fa.X, fnm, y
+				}
+			}
+		}
+		if base == nil {
+			continue
+		}
+		bp := w.accessPath(base)
+		eachInstr(fn, func(in ssa.Instruction) {
+			st, ok := in.(*ssa.Store)
+			if !ok {
+				return
+			}
+			fa, ok := st.Addr.(*ssa.FieldAddr)
+			if !ok || fieldName(fa.X.Type(), fa.Field) != field || w.accessPath(fa.X) != bp {
+				return
+			}
+			if _, derived := mayDeriveFromCall(st.Val, mapSym); derived && instrDominates(st, at) {
+				found = st
+			}
+		})
+	}
+	return found
 }
